@@ -228,7 +228,20 @@ pub fn generate(rng: &mut Rng, tier: Tier, stats: &mut GenStats) -> Scenario {
     let cwd = g.pick_dir(&model0, 50);
     // (the base may be a link to a directory: a walk root is followed whatever the policy)
     g.link_base_pct = 12;
-    let base = g.pick_base(&model0, 55, true);
+    let mut base = g.pick_base(&model0, 55, true);
+    // ... or, rarely, a link whose target is missing: the walk cannot start, and says so
+    if links == LinkMode::All && g.rng.chance(3, 100) {
+        let plain = Gen::plain_dirs(&model0);
+        let dangling: Vec<String> = tree
+            .iter()
+            .filter(|n| matches!(n.kind, Kind::Link { .. }) && plain.contains(&parent(&n.path).to_string()))
+            .filter(|n| matches!(model0.resolve(&n.path, true), Err(crate::model::Errno::NoEnt)))
+            .map(|n| n.path.clone())
+            .collect();
+        if !dangling.is_empty() {
+            base = g.rng.pick(&dangling).clone();
+        }
+    }
     let base_target = model0.resolve(&base, true).unwrap_or_else(|_| base.clone());
     // a cluster of faults in one directory (several consecutive error items, an error as the very
     // first or very last item of a listing)
@@ -908,7 +921,25 @@ fn source_clauses(
     // err-complete: a fault is reported whenever the walk was obliged to touch it
     for v in &faults {
         let f = v.fault.as_ref().unwrap();
-        if reported.contains(&v.path) || matches!(f, Fault::RootMissing) {
+        if matches!(f, Fault::RootMissing) {
+            // a directory that is not there MAY be reported; a base that is a link whose target is
+            // missing is a missing link target: it is reported
+            let dangling_base = matches!(model.get(&w.base).map(|i| &i.kind), Some(Kind::Link { .. }));
+            if dangling_base && uv.es.is_empty() {
+                out.violate(
+                    "C20",
+                    "err-complete",
+                    wi,
+                    format!("the base {:?} is a link whose target is missing, yet no error item was produced", w.base),
+                    vec![format!("no-error:{}", w.base)],
+                );
+            }
+            if dangling_base {
+                out.probe("fault:base-is-a-dangling-link");
+            }
+            continue;
+        }
+        if reported.contains(&v.path) {
             continue;
         }
         let obliged = match f {
